@@ -5,16 +5,16 @@
 SRCWT="$1"; PROP="$2"; X="$3"; shift 3
 CHECKS="${*:-C01 C02 C03 C04 C05 C06 C07 C08 C09 C10 C11 C12 C13 C14 C15 C16 C17 C18 C19 C20}"
 M="$SRCWT/MUTANT/$X"
-DEST="/verif/seeded/$PROP-$X"
+DEST="/verif/seeded/${DESTNAME:-$PROP-$X}"
 [ -f "$M/patch.diff" ] || { echo "$PROP-$X: no patch"; exit 1; }
-WT="/tmp/ev-$PROP-$X-$$"
+WT="/tmp/ev-${DESTNAME:-$PROP-$X}-$$"
 git -C /repo worktree add --detach "$WT" HEAD -q || exit 2
-clean_demo=$(cd "$WT" && PYTHONPATH="$WT/src" timeout 300 /venv/bin/python "$M/demo.py" >/tmp/ev-$PROP-$X.clean.log 2>&1; echo $?)
+clean_demo=$(cd "$WT" && PYTHONPATH="$WT/src" timeout 300 /venv/bin/python "$M/demo.py" >/tmp/ev-${DESTNAME:-$PROP-$X}.clean.log 2>&1; echo $?)
 if ! git -C "$WT" apply "$M/patch.diff"; then echo "$PROP-$X PATCH-FAILS"; git -C /repo worktree remove --force "$WT"; exit 1; fi
 suite=$(cd "$WT" && PYTHONPATH="$WT/src" timeout 600 /venv/bin/python -m pytest -q -p no:cacheprovider 2>&1 | tail -1)
-mut_demo=$(cd "$WT" && PYTHONPATH="$WT/src" timeout 300 /venv/bin/python "$M/demo.py" >/tmp/ev-$PROP-$X.mut.log 2>&1; echo $?)
+mut_demo=$(cd "$WT" && PYTHONPATH="$WT/src" timeout 300 /venv/bin/python "$M/demo.py" >/tmp/ev-${DESTNAME:-$PROP-$X}.mut.log 2>&1; echo $?)
 mkdir -p "$DEST"; cp "$M/patch.diff" "$M/demo.py" "$DEST/"; [ -f "$M/notes.md" ] && cp "$M/notes.md" "$DEST/"
-OUT="/tmp/evout-$PROP-$X"; rm -rf "$OUT"; mkdir -p "$OUT"
+OUT="/tmp/evout-${DESTNAME:-$PROP-$X}"; rm -rf "$OUT"; mkdir -p "$OUT"
 caught=""; res=""
 for c in $CHECKS; do
   HSVERIF_SRC="$WT/src" HSVERIF_EVIDENCE_DIR="$OUT" HSVERIF_REPLAY_DIR="$OUT" VERIF_TIER="${VERIF_TIER:-quick}" timeout 3600 /verif/check "$c" > "$OUT/$c.log" 2>&1
